@@ -371,7 +371,7 @@ def finding_matches(fid, inp, obs, why):
         # _is_obvious_ancestor answers True although the start revision is not on the left-hand
         # history of the end revision: the end is open, or both are merged revisions with the
         # same base revno but on different branches.  Reverse direction, level 1.
-        if "_StartNotLinearAncestor" not in (why or "") or inp["forward"] or not _level1(inp) or inp["excl"]:
+        if "_StartNotLinearAncestor" not in (why or "") or inp["forward"] or not _level1(inp):
             return False
         e2 = e if e is not None else tip
         if e2 is None or s in daglib.lefthand(g, e2):
